@@ -375,6 +375,9 @@ impl OutstationSession {
         // nothing from a previous communication session may carry over, even if that
         // session's future was dropped instead of running to completion
         self.state.reset();
+        // events and static values selected or written for a response of a previous session
+        // that was never confirmed must be offered again
+        database.reset();
 
         loop {
             if let Err(err) = self.run_idle_state(io, reader, writer, database).await {
